@@ -338,6 +338,13 @@ func gen(r *vh.Rand) string {
 			acts = append(acts, genAction(r, queryBias))
 		}
 	}
+	// header / PASS / CLOSE / FINISH actions are not allowed in mod_rewrite rules: load them the basic way mostly
+	for _, a := range acts {
+		if (strings.HasPrefix(a, "REQ_HEADER") || strings.HasPrefix(a, "PASS") || strings.HasPrefix(a, "CLOSE") ||
+			strings.HasPrefix(a, "FINISH")) && !r.Chance(1, 8) {
+			loader = "ba"
+		}
+	}
 	hdr := "-"
 	if r.Chance(1, 3) {
 		var hs []string
